@@ -13,8 +13,9 @@ prints `COMMIT`, `AND NO CHAIN` is dropped, `TO name` prints `TO SAVEPOINT name`
 `RELEASE SAVEPOINT name`; transaction modes are printed with `, ` between them whether or not the source
 had commas; `SET SESSION x = …` loses `SESSION`, `TO` prints `=`, `SET TIME ZONE = v` prints
 `SET TIMEZONE = v`, `SET TIMEZONE v` prints `SET TIME ZONE v`; `SET … NAMES` prints the words `SET NAMES`
-(modifier dropped, `NAMES` upper-cased although it is no keyword) and the charset / collation strings
-RAW, without their quotes; `SET [LOCAL] CHARACTERISTICS AS TRANSACTION` prints
+(modifier dropped, `NAMES` upper-cased although it is no keyword) and the charset / collation names through
+`fmt_set_names_part`: a name that is one plain non-keyword word is written as it is (whatever quotes the source
+had), any other name as a single-quoted string (`escape_single_quote_string`); `SET [LOCAL] CHARACTERISTICS AS TRANSACTION` prints
 `SET SESSION CHARACTERISTICS AS TRANSACTION`; `DISCARD TEMPORARY` prints `DISCARD TEMP`; trailing commas of
 the SET lists are dropped.
 -/
@@ -128,18 +129,30 @@ def SetTarget.pieces : SetTarget → List Piece
 /-- a word that `Display` writes in upper case although it is no keyword (`NAMES`, `CHARACTERISTICS`) -/
 def plainWordP (sp : Bool) (name : String) : Piece := ⟨sp, .word (str name) none none, some (str name)⟩
 
-/-- `f.write_str(charset_name)`: the string RAW, without quotes or escaping -/
-def rawPiece (sp : Bool) (t : Tok) : Piece :=
-  match t with
-  | .word v _ _ => ⟨sp, .word v none none, some v⟩
-  | .sqs s => ⟨sp, .word s none none, some s⟩
-  | .dqs s => ⟨sp, .word s none none, some s⟩
-  | _ => { noText with sp := sp }
+/-- ASCII letter or `_` (`c.is_ascii_alphabetic() || c == '_'`) -/
+def isNameStart (c : Nat) : Bool := (65 ≤ c && c ≤ 90) || (97 ≤ c && c ≤ 122) || c == 95
+
+/-- ASCII letter, digit or `_` (`c.is_ascii_alphanumeric() || c == '_'`) -/
+def isNameChar (c : Nat) : Bool := isNameStart c || (48 ≤ c && c ≤ 57)
+
+/-- the test of `fmt_set_names_part`: the name is ONE plain word (an ASCII letter or `_`, then ASCII letters,
+digits, `_`) that is no keyword (`ALL_KEYWORDS.binary_search(&name.to_ascii_uppercase())` fails) -/
+def plainName (v : W) : Bool :=
+  match v with
+  | [] => false
+  | c :: r => isNameStart c && r.all isNameChar && (kwLookup v).isNone
+
+/-- `fmt_set_names_part(f, name)` on the `String` the parser kept of the token (`litValue`): a plain name is
+written as it is (it lexes as one unquoted non-keyword word), anything else as a single-quoted string through
+`escape_single_quote_string` -/
+def namesPartPiece (sp : Bool) (t : Tok) : Piece :=
+  if plainName (litValue t) then ⟨sp, .word (litValue t) none none, some (litValue t)⟩
+  else ⟨sp, .sqs (litValue t), some ([39] ++ SqlVerif.Escape.escapeQ 39 (litValue t) ++ [39])⟩
 
 /-- ` COLLATE collation` -/
 def collatePieces (co : List Tok) : List Piece :=
   match co.getLast? with
-  | some t => [kwP true "COLLATE", rawPiece true t]
+  | some t => [kwP true "COLLATE", namesPartPiece true t]
   | none => []
 
 def setVarPieces (md : List Tok) (tg : SetTarget) (vs : Sep Expr) : List Piece :=
@@ -170,7 +183,7 @@ def Stmt.pieces : Stmt → List Piece
   | .setVar _ md _ tg _ _ vs _ => setVarPieces md tg vs
   | .setTimeZone _ md _ _ e => [kwP false "SET"] ++ localPieces md ++ [kwP true "TIME", kwP true "ZONE"] ++ spaced e.pieces
   | .setNamesDefault _ _ _ _ _ => [kwP false "SET", plainWordP true "NAMES", kwP true "DEFAULT"]
-  | .setNames _ _ _ _ cs co => [kwP false "SET", plainWordP true "NAMES", rawPiece true cs] ++ collatePieces co
+  | .setNames _ _ _ _ cs co => [kwP false "SET", plainWordP true "NAMES", namesPartPiece true cs] ++ collatePieces co
   | .setTx _ _ _ _ session ms => setTxPieces session ms
   | .useObj _ kind name => [kwP false "USE"] ++ kind.map (kwTokP true) ++ spaced (namePieces name)
   | .useDefault _ _ => [kwP false "USE", kwP true "DEFAULT"]
